@@ -54,6 +54,12 @@ CHECKS = {
   text="Every encoding of C01's corpus is re-read with a strict tokenizer (one value, no trailing data, number/string distinction kept) and matched against a reference encoder written from the README table: bare 32-bit ints / floats / bools, quoted 64-bit ints and decimals, padded std base64, RFC 3339 UTC timestamps, zero-padded dates, short enum names, oneof = {\"!type\", arm}, Any = {\"!type\", \"value\"}, flattened members inlined, unset members omitted, schema JSON names, no duplicate members. History oracles: bytes returned by an earlier call stay intact after the next call on the same codec; EncodeAny followed by encoding the parent. Non-representable values (NaN, +-Inf, year 0/10000, month 13, nanos out of range, undefined enum number, invalid UTF-8) must fail or still give valid JSON.",
   note="member order and float digits unconstrained (not documented)",
   design="3/C08"),
+ "C18": dict(
+  engine="E1",
+  technique=TECH_E1 + "; full (proto field type x label x annotation) matrix of raw descriptor sets plus structural families; oracle = total + path/kind/name consistency + codec usable",
+  text="Every descriptor set of the matrix 31 field types (all 15 proto scalar kinds, enums with and without UNSPECIFIED, messages, oneof wrapper, self reference, well-known and j5 types) x 4 labels x 90 annotations ((j5.ext.v1.field) of every type, (buf.validate.field) of every type at boundary values, (j5.list.v1.field) of every type, PSM key options; consistent with the field or not) and ~60 structural sets (message options, enum shapes, real/synthetic/exposed oneofs, recursion through field/array/map/oneof/flatten, flatten chains, JSON-name collisions, nested-name collisions) is reflected through SchemaSetFromFiles and SchemaCache.Schema: no panic / fatal / hang, (schema xor error), every property path resolves to a field of the matching kind, client property names unique, and the codec encodes and decodes the empty and a populated message of every reflected type. Thorough adds all pairs of annotations on one field.",
+  note="options are typed extension messages (protodesc, no protoc); 10 open known findings (Duration / Struct / array-of-Any / map-of-Any codec support, nested-name collision) are listed in known_findings.json",
+  design="3/C18"),
 }
 
 PENDING = {
